@@ -798,7 +798,7 @@ class RunDueness(common.Suite):
         n = 120 if tier == "quick" else 2500
         for _ in range(n):
             k = rng.randint(1, 5)
-            cyc = rng.randint(1, 8)
+            cyc = rng.randint(1, 8) if rng.random() < 0.9 else 0     # zero cycles per step: a step that attempts nothing
             table = []
             left = cyc
             for j in range(k):
